@@ -318,6 +318,9 @@ func c10HoldsKey(a *c10Agent, didKeyOrKID string) bool {
 }
 
 func c10Run(input string) string {
+	if strings.HasPrefix(input, "rot,") {
+		return c10RotRun(input)
+	}
 	parts := strings.SplitN(input, "|", 2)
 	if len(parts) != 2 {
 		return "bad-input"
@@ -700,6 +703,8 @@ func c10Gen(r *Rng, tier string) []string {
 		}
 		out = append(out, cfg+"|"+strings.Join(ops, ";"))
 	}
+	// DID rotation (from_prior) against the middleware: cheap cases, many of them
+	out = append(out, c10RotGen(r, 6*n)...)
 	return out
 }
 
